@@ -1,7 +1,8 @@
-"""C17 lambda statements never reuse stale closure values.
+"""C23 lambda statements never reuse stale closure values.
 
-Engine H: for each of 17 lambda statement shapes (lambda_stmt, ``+=`` chains,
-conditional chains, nested ``where(lambda: ...)``, with_loader_criteria(lambda)
+Engine H: for each of 23 lambda statement shapes (lambda_stmt, ``+=`` chains,
+conditional chains (divergence at link 1 of 2, 1 of 3, 1 of 4, 2 of 4, at the base, three-way; the chains
+share two or more identical trailing links), nested ``where(lambda: ...)``, with_loader_criteria(lambda)
 through a Session, closure scalars / two scalars / strings / lists for IN /
 columns / tables / None / limit values / module globals / object attributes /
 function results / DML) every sequence of invocations of length <= 3 (quick)
@@ -12,6 +13,7 @@ object and code objects compare by value, file name excluded) against one engine
 cache is cleared at the start of a history.
 
 Oracle (differential, quoted from the property): each invocation's
+fresh ``compile()`` output (SQL + parameters in placeholder order), the
 ``(SQL text, parameters)`` handed to the cursor and the rows returned equal
 those of the equivalent statement built directly from the current closure
 values and executed with the compiled cache disabled.  For DML the table
@@ -41,6 +43,13 @@ Mutations caught (each seeded alone in a scratch copy, VIOLATION obtained):
   M6 sql/lambdas.py _bound_parameter_getter_func_globals reads the first invocation's global value
   M7 sql/lambdas.py _gen_cache_key no longer hands the resolved bindparams to the statement cache key (stale values)
   M9 orm/util.py LoaderCriteriaOption._traverse_internals loses "where_criteria" (lambda criteria not in the cache key)
+  linked-lambda keying (chains diverging early and sharing >= 2 trailing links):
+  L1 sql/lambdas.py LinkedLambdaElement.tracker_key = (parent code, own code) instead of the whole chain
+  L2 sql/lambdas.py LambdaElement._gen_cache_key walks only the immediate parent
+  L3 sql/lambdas.py LinkedLambdaElement.tracker_key = (own code,) only
+  L4 sql/lambdas.py _gen_cache_key walks exactly two parents
+  L5 sql/lambdas.py tracker_key keeps only the last two parent codes
+  L6 sql/lambdas.py _retrieve_tracker_rec: closure_cache_key no longer includes the parent's closure key
   (not caught, judged equivalent for executed values: replacing new_bind.value by orig_bind.value in
   _retrieve_tracker_rec - the bindparam trackers overwrite the values afterwards; skipping
   _setup_binds_for_tracked_expr in DeferredLambdaElement._resolve_with_args - the statement cache key's extracted
@@ -70,7 +79,7 @@ META = dict(
     "against the directly built statement executed uncached (cursor-level SQL, parameters, rows)",
     design_ref="DESIGN.md §5 C17",
     level_text="All invocation sequences of length <=3 (quick) / <=4 (thorough) over each shape's closure-value alphabet "
-    "(ints, strings, None, lists of length 0..2, two columns, two tables, limit values, globals) for 17 lambda statement "
+    "(ints, strings, None, lists of length 0..2, two columns, two tables, limit values, globals) for 23 lambda statement "
     "shapes are run on the real lambda machinery with a shared compiled cache; every invocation is compared with the "
     "non-lambda statement built from the current values and executed uncached. Exhaustive for the bound: any stale "
     "closure value, stale structure or wrong bound-parameter extraction reachable within 4 invocations of these shapes is found.",
@@ -82,8 +91,8 @@ META = dict(
     "invocation re-used an analysed lambda (history position >= 2) with a value different from the first",
     assumptions=["single thread", "closure values are the ones listed per shape", "SQLite executes both routes"],
     bounds=dict(
-        quick="17 shapes, all value sequences of length <= 3, each with a shared compiled cache and with the compiled cache cleared before every invocation",
-        thorough="17 shapes, all value sequences of length <= 4, both compiled-cache modes",
+        quick="23 shapes, all value sequences of length <= 3, each with a shared compiled cache and with the compiled cache cleared before every invocation",
+        thorough="23 shapes, all value sequences of length <= 4, both compiled-cache modes",
     ),
 )
 
@@ -241,6 +250,124 @@ def direct(v):
 """,
         alphabet=[("pair", 1, True), ("pair", 1, False), ("pair", 2, False), ("pair", 0, True)],
     ),
+    "chain3_div1": dict(
+        src="""
+def make(v):
+    flag, x, y = v
+    s = lambda_stmt(lambda: select(t.c.id, t.c.a, t.c.b))
+    if flag:
+        s += lambda q: q.where(t.c.a >= x)
+    else:
+        s += lambda q: q.where(t.c.b >= x)
+    s += lambda q: q.where(t.c.id != y)
+    s += lambda q: q.order_by(t.c.id)
+    return s
+def direct(v):
+    flag, x, y = v
+    s = select(t.c.id, t.c.a, t.c.b)
+    s = s.where(t.c.a >= x) if flag else s.where(t.c.b >= x)
+    return s.where(t.c.id != y).order_by(t.c.id)
+""",
+        alphabet=[("br", True, 2, 0), ("br", False, 2, 0), ("br", True, 1, 4), ("br", False, 1, 4)],
+    ),
+    "chain4_div1": dict(
+        src="""
+def make(v):
+    flag, x, y = v
+    s = lambda_stmt(lambda: select(t.c.id, t.c.s))
+    if flag:
+        s += lambda q: q.where(t.c.a == x)
+    else:
+        s += lambda q: q.where(t.c.b == x)
+    s += lambda q: q.where(t.c.id > y)
+    s += lambda q: q.where(t.c.id < 5)
+    s += lambda q: q.order_by(t.c.id.desc())
+    return s
+def direct(v):
+    flag, x, y = v
+    s = select(t.c.id, t.c.s)
+    s = s.where(t.c.a == x) if flag else s.where(t.c.b == x)
+    return s.where(t.c.id > y).where(t.c.id < 5).order_by(t.c.id.desc())
+""",
+        alphabet=[("br", True, 1, 0), ("br", False, 1, 0), ("br", True, 2, 1), ("br", False, 2, 1)],
+    ),
+    "chain4_div2_literal_tail": dict(
+        src="""
+def make(v):
+    flag, x, y = v
+    s = lambda_stmt(lambda: select(t.c.id))
+    s += lambda q: q.where(t.c.id >= y)
+    if flag:
+        s += lambda q: q.add_columns(t.c.a).where(t.c.a <= x)
+    else:
+        s += lambda q: q.add_columns(t.c.b).where(t.c.b <= x)
+    s += lambda q: q.where(t.c.id != 4)
+    s += lambda q: q.order_by(t.c.id).limit(3)
+    return s
+def direct(v):
+    flag, x, y = v
+    s = select(t.c.id).where(t.c.id >= y)
+    s = s.add_columns(t.c.a).where(t.c.a <= x) if flag else s.add_columns(t.c.b).where(t.c.b <= x)
+    return s.where(t.c.id != 4).order_by(t.c.id).limit(3)
+""",
+        alphabet=[("br", True, 2, 0), ("br", False, 2, 0), ("br", True, 1, 2), ("br", False, 1, 2)],
+    ),
+    "base_div_shared_tail": dict(
+        src="""
+def make(v):
+    flag, x, y = v
+    if flag:
+        s = lambda_stmt(lambda: select(t.c.id, t.c.a))
+    else:
+        s = lambda_stmt(lambda: select(t.c.id, t.c.b, t.c.s))
+    s += lambda q: q.where(t.c.id >= x)
+    s += lambda q: q.where(t.c.id <= y)
+    s += lambda q: q.order_by(t.c.id)
+    return s
+def direct(v):
+    flag, x, y = v
+    s = select(t.c.id, t.c.a) if flag else select(t.c.id, t.c.b, t.c.s)
+    return s.where(t.c.id >= x).where(t.c.id <= y).order_by(t.c.id)
+""",
+        alphabet=[("br", True, 1, 4), ("br", False, 1, 4), ("br", True, 2, 5), ("br", False, 2, 5)],
+    ),
+    "chain3_three_way": dict(
+        src="""
+def make(v):
+    which, x, y = v
+    s = lambda_stmt(lambda: select(t.c.id))
+    if which == 0:
+        s += lambda q: q.where(t.c.a == x)
+    elif which == 1:
+        s += lambda q: q.where(t.c.b == x)
+    else:
+        s += lambda q: q.where(t.c.s.like("%b%"))
+    s += lambda q: q.where(t.c.id != y)
+    s += lambda q: q.order_by(t.c.id)
+    return s
+def direct(v):
+    which, x, y = v
+    s = select(t.c.id)
+    s = s.where(t.c.a == x) if which == 0 else (s.where(t.c.b == x) if which == 1 else s.where(t.c.s.like("%b%")))
+    return s.where(t.c.id != y).order_by(t.c.id)
+""",
+        alphabet=[("br", 0, 1, 0), ("br", 1, 1, 0), ("br", 2, 1, 0), ("br", 1, 2, 5)],
+    ),
+    "col_link_then_tail": dict(
+        src="""
+def make(v):
+    col, x = v
+    s = lambda_stmt(lambda: select(t.c.id))
+    s += lambda q: q.add_columns(col).where(col >= x)
+    s += lambda q: q.where(t.c.id != 4)
+    s += lambda q: q.order_by(t.c.id)
+    return s
+def direct(v):
+    col, x = v
+    return select(t.c.id).add_columns(col).where(col >= x).where(t.c.id != 4).order_by(t.c.id)
+""",
+        alphabet=[("cp", "a", 1), ("cp", "b", 1), ("cp", "a", 2), ("cp", "b", 2)],
+    ),
     "limit_closure": dict(
         src="""
 def make(v):
@@ -342,6 +469,8 @@ def decode(tok):
         return (list(tok[1]), tok[2])
     if k == "pair":
         return (tok[1], tok[2])
+    if k == "br":
+        return (tok[1], tok[2], tok[3])
     if k == "cp":
         return (t.c[tok[1]], tok[2])
     if k == "tp":
@@ -398,6 +527,12 @@ class Db:
                 rows = [tuple(r) for r in res] if res.returns_rows else [("rowcount", res.rowcount)]
         return list(self.log), rows
 
+    def compiled(self, stmt):
+        """fresh compile() (no compiled cache involved): SQL text + parameters in placeholder order"""
+        comp = stmt.compile(dialect=self.engine.dialect, compile_kwargs={"render_postcompile": True})
+        params = comp.params
+        return " ".join(str(comp).split()), repr([params[k] for k in (comp.positiontup or [])])
+
     def contents(self):
         with self.engine.connect() as c:
             return [tuple(r) for r in c.execute(t.select().order_by(t.c.id))]
@@ -429,6 +564,7 @@ def run_history(shape, hist, dbs, rec=None, evict=False):
         outcome = None
         try:
             lstmt = make(val_l)
+            lc, dc = lam_db.compiled(lstmt), dir_db.compiled(direct(decode(tok)))
             llog, lrows = lam_db.run(lstmt, spec.get("orm"))
         except REFUSALS as e:
             if spec.get("may_refuse"):
@@ -446,6 +582,9 @@ def run_history(shape, hist, dbs, rec=None, evict=False):
                 probs.append(("rows", "step %d value %r: lambda rows %r, direct rows %r" % (i, tok, lrows, drows), i))
             elif spec.get("dml") and lam_db.contents() != dir_db.contents():
                 probs.append(("table-contents", "step %d value %r: %r vs %r" % (i, tok, lam_db.contents(), dir_db.contents()), i))
+            elif lc != dc:
+                # (reported only when the executed route agrees: otherwise it is the same failure seen twice)
+                probs.append(("compile", "step %d value %r: compile() of the lambda statement gives %r, of the direct statement %r" % (i, tok, lc, dc), i))
             outcome = repr(drows)
         if rec is not None:
             seen.add(tok)
@@ -458,7 +597,7 @@ def run_history(shape, hist, dbs, rec=None, evict=False):
 
 
 def kind_of(tok):
-    return {"i": "scalar", "s": "scalar", "none": "None", "col": "column", "l": "list", "lp": "list", "pair": "scalars", "cp": "column", "tp": "table", "foo": "object"}[tok[0]]
+    return {"i": "scalar", "s": "scalar", "none": "None", "col": "column", "l": "list", "lp": "list", "pair": "scalars", "br": "scalars", "cp": "column", "tp": "table", "foo": "object"}[tok[0]]
 
 
 def analysis_kind(tok):
